@@ -53,10 +53,11 @@ theorem c19_released_at_most_once {c : Cfg} (hc : CfgOK c) {s : State} (h : Reac
       have h3 : 0 < s.heap.ids.count b := List.count_pos_iff.mpr hi
       split at h1 <;> omega
 
-/-- **No leak.** Every live heap block is either the storage's own block or the private block of exactly one
-live frame (a heap fallback / a `default_storage` frame); nothing else is live. -/
+/-- **No leak.** Every live heap block is either the storage's own block, the block of the other `reusable_storage`
+object (source / target of moves), or the private block of exactly one live frame (a heap fallback / a
+`default_storage` frame); nothing else is live, and these never coincide (each count is at most 1). -/
 theorem c19_no_leak {c : Cfg} (hc : CfgOK c) {s : State} (h : Reachable c s) (hok : s.ok = true) (b : Nat) :
-    s.heap.ids.count b = s.ptr.toList.count b + (privBlocks s.frames).count b :=
+    s.heap.ids.count b = s.ptr.toList.count b + s.optr.toList.count b + (privBlocks s.frames).count b :=
   (reachable_inv hc h hok).mem.noleak b
 
 /-- **Any heap fallback is released exactly once**: once all frames are gone and the storage object is destroyed,
@@ -79,7 +80,8 @@ theorem c19_fallback_freed_once {c : Cfg} (hc : CfgOK c) {s : State} (h : Reacha
     have h2 : 0 < (step s Op.destroy).1.heap.ids.count b := List.count_pos_iff.mpr hb
     have h3 : (step s Op.destroy).1.ptr = none := rfl
     have h4 : (step s Op.destroy).1.frames = [] := hq
-    rw [h3, h4] at h1
+    have h5 : (step s Op.destroy).1.optr = none := rfl
+    rw [h3, h4, h5] at h1
     simp at h1
     omega
   constructor
@@ -102,10 +104,11 @@ theorem c19_free_path (s : State) (f : Frame) (hfind : s.frames.find? (fun g => 
 
 /-- **No heap memory after warm-up** (`reusable_storage`, `reusable_storage_mtsafe` with its block free,
 `reusable_buffer_storage`): once a frame of `n` bytes was served from the storage's own block, *every* later
-request of at most `n` bytes — after any further history that does not destroy the storage — is served without
-any heap call. -/
+request of at most `n` bytes — after any further history that does not destroy the storage or switch to the other
+storage object (moves of the storage are allowed: the capacity moves with the block) — is served without any heap
+call. -/
 theorem c19_warm_no_alloc {c : Cfg} (hc : CfgOK c) (hr : Reusing c.pol) (ops1 ops2 : List Op) (k k' n m : Nat)
-    (hm : m ≤ n) (hnd : Op.destroy ∉ ops2)
+    (hm : m ≤ n) (hnd : Op.destroy ∉ ops2 ∧ Op.swapobj ∉ ops2)
     (hb1 : c.pol = Policy.mtsafe → (run (init c) ops1).busy = false)
     (hok : (run (init c) (ops1 ++ Op.alloc k n :: ops2)).ok = true)
     (hb2 : c.pol = Policy.mtsafe → (run (init c) (ops1 ++ Op.alloc k n :: ops2)).busy = false) :
@@ -178,6 +181,58 @@ theorem c19_extra_object_usable {c : Cfg} (hc : CfgOK c) {s : State} (h : Reacha
   simp only [] at hlt
   rw [if_pos hlt] at h1 h2
   exact ⟨hinv, h1, by omega, ⟨id, blk, sz, p⟩, hmem, rfl, rfl, rfl⟩
+
+/-- **`static_storage<space>`**: a frame is placed in the object's own buffer exactly when frame + trailer fit
+(`need ≤ space`, the library's `assert`); with the `assert` compiled in a larger request is rejected and nothing
+happens; without it (`NDEBUG`) the frame goes to a fresh heap block of exactly `need` bytes, marked private, which
+`dealloc` (`ptr != _buffer`) deletes — exclusivity, size and exactly-once release of both paths are
+`c19_exclusive` / `c19_size` / `c19_released_at_most_once` / `c19_fallback_freed_once` with `c.pol = static …`.
+The buffer has no busy flag: it is handed out again only after the caller released it (`ok`). -/
+theorem c19_static_storage (s : State) (space : Nat) (a : Bool) (hp : s.cfg.pol = Policy.static space a) (k sz : Nat) :
+    (need s.cfg sz ≤ space →
+        (step s (Op.alloc k sz)).2 = Res.alloc s.nextFrame (Blk.ext 0) ∧ (step s (Op.alloc k sz)).1.heap = s.heap ∧
+        ((step s (Op.alloc k sz)).1.ok = true ↔ s.ok = true ∧ ∀ f ∈ s.frames, f.blk ≠ Blk.ext 0)) ∧
+    (space < need s.cfg sz → a = true → step s (Op.alloc k sz) = (s, Res.rejected)) ∧
+    (space < need s.cfg sz → a = false →
+        (step s (Op.alloc k sz)).2 = Res.alloc s.nextFrame (Blk.heap s.heap.next) ∧
+        (step s (Op.alloc k sz)).1.heap = s.heap.new (need s.cfg sz) ∧
+        (step s (Op.alloc k sz)).1.frames = s.frames ++ [⟨s.nextFrame, Blk.heap s.heap.next, sz, true⟩]) := by
+  simp only [step, stepAlloc, hp]
+  refine ⟨?_, ?_, ?_⟩
+  · intro hfit
+    have : ¬ space < need s.cfg sz := by omega
+    simp only [this, decide_false, Bool.and_false, Bool.false_eq_true, if_false, allocStatic, hfit, if_true, addFrame]
+    refine ⟨trivial, trivial, ?_⟩
+    simp [Bool.and_eq_true, List.all_eq_true]
+  · intro hbig ha
+    simp [hbig, ha]
+  · intro hbig ha
+    have : ¬ need s.cfg sz ≤ space := by omega
+    simp [hbig, ha, allocStatic, this, addFrame]
+
+/-- **Moves of a `reusable_storage`** (move construction into a re-constructed object and move assignment are the
+same transition): the receiving object takes over block and capacity — a frame living in the block stays where it
+is, in live memory —, whatever the receiving object owned before is deleted exactly once, nothing else is touched. -/
+theorem c19_move_transfers_block (s : State) (hp : s.cfg.pol = Policy.reusable) :
+    (step s Op.moveOut).1.ptr = s.ptr ∧ (step s Op.moveOut).1.cap = s.cap ∧ (step s Op.moveOut).1.frames = s.frames ∧
+    (step s Op.moveOut).1.optr = none ∧ (step s Op.moveOut).1.heap = s.heap.delOpt s.optr ∧
+    (step s Op.moveOut).1.ok = s.ok := by
+  simp [step, stepMoveOut, hp]
+
+/-- the two storage objects never own the same block, both own live blocks of their recorded capacity (so the
+destructor of either deletes a block that is live and its own: no double free, `c19_released_at_most_once`) -/
+theorem c19_two_objects_disjoint {c : Cfg} (hc : CfgOK c) (hp : c.pol = Policy.reusable) {s : State} (h : Reachable c s)
+    (hok : s.ok = true) :
+    (∀ p, s.ptr = some p → s.optr ≠ some p ∧ (p, s.cap) ∈ s.heap.live) ∧
+    (∀ q, s.optr = some q → (q, s.ocap) ∈ s.heap.live) := by
+  have hi := (reachable_inv hc h hok).mem
+  have hpol : s.cfg.pol = Policy.reusable := by rw [reachable_cfg h]; exact hp
+  refine ⟨?_, hi.optr_live⟩
+  intro p hpp
+  refine ⟨?_, by have := hi.ptr_live p hpp; simpa [capBytes, hpol] using this⟩
+  intro e
+  have := hi.optr_count_ptr hpp
+  simp [e] at this
 
 /-- `reusable_storage_mtsafe`, one thread at a time: at most one live frame sits in the shared block, `_busy` is set
 exactly while it does, and every other live frame has a private heap block -/
@@ -322,6 +377,27 @@ blocks 0 and 1 were each deleted once -/
 example : (run (init { pol := Policy.mtsafe }) [Op.alloc 0 40, Op.alloc 0 24, Op.free 0, Op.free 1]).ok = true
     ∧ (run (init { pol := Policy.mtsafe }) [Op.alloc 0 40, Op.alloc 0 24, Op.free 0, Op.free 1]).frames = []
     ∧ (run (init { pol := Policy.mtsafe }) [Op.alloc 0 40, Op.alloc 0 24, Op.free 0, Op.free 1, Op.destroy]).heap.dels = [1, 0] := by
+  decide
+
+/-- static storage, both builds: a frame that fits sits in the buffer; a larger one is rejected (assert) or goes to
+a private heap block of frame + trailer bytes (NDEBUG) and is released by `dealloc` -/
+example : (run (init { pol := Policy.static 64 true }) [Op.alloc 0 40, Op.alloc 0 100]).ok = true
+    ∧ ((run (init { pol := Policy.static 64 true }) [Op.alloc 0 40, Op.alloc 0 100]).frames.map (·.blk)) = [Blk.ext 0] := by
+  decide
+example : (run (init { pol := Policy.static 64 false }) [Op.alloc 0 40, Op.alloc 0 100]).ok = true
+    ∧ ((run (init { pol := Policy.static 64 false }) [Op.alloc 0 40, Op.alloc 0 100]).frames.map (·.blk)) = [Blk.ext 0, Blk.heap 0]
+    ∧ (run (init { pol := Policy.static 64 false }) [Op.alloc 0 40, Op.alloc 0 100]).heap.live = [(0, 108)]
+    ∧ (run (init { pol := Policy.static 64 false }) [Op.alloc 0 40, Op.alloc 0 100, Op.free 1, Op.free 0, Op.destroy]).heap.dels = [0] := by
+  decide
+
+/-- moves: both objects own a block; a frame is created, the storage is moved while the frame is live (the block of
+the receiving object, 0, is deleted), the frame is released, both objects are destroyed: each block deleted once -/
+example : (run (init { pol := Policy.reusable }) [Op.alloc 0 16, Op.free 0, Op.swapobj, Op.alloc 0 40, Op.moveOut]).ok = true
+    ∧ ((run (init { pol := Policy.reusable }) [Op.alloc 0 16, Op.free 0, Op.swapobj, Op.alloc 0 40, Op.moveOut]).frames.map (·.blk))
+        = [Blk.heap 1]
+    ∧ (run (init { pol := Policy.reusable }) [Op.alloc 0 16, Op.free 0, Op.swapobj, Op.alloc 0 40, Op.moveOut]).heap.live = [(1, 40)]
+    ∧ (run (init { pol := Policy.reusable }) [Op.alloc 0 16, Op.free 0, Op.swapobj, Op.alloc 0 40, Op.moveOut, Op.free 1,
+          Op.destroy]).heap.dels = [0, 1] := by
   decide
 
 /-- reachable, contract respected, with a reused block and a live frame -/
